@@ -197,6 +197,19 @@ def build_corpus(rng_, thorough):
         corpus.append(t)
         corpus += [t[:k] for k in range(len(t))] if thorough else [t[:k] for k in range(0, len(t), 2)]
         corpus += rg.mutants(rng_, t, per_kind=None if thorough else 8)
+    # characters that are digits / letters for Python but not for the RING grammar, where a number is expected
+    for ch in ('\u00b2', '\u0663', '\u2460', '\uff11', '\u00bd'):
+        corpus += ['fragment a{ C labeled c1 {in ring of size %s} }' % ch,
+                   'fragment a{ C labeled c1 {connected to >%s C} }' % ch,
+                   'fragment a{ C labeled c1 {has 1%s radical electrons} }' % ch,
+                   'rule r{ reactant r1{ C labeled c1 } modify number of radical (c1, %s) }' % ch,
+                   'fragment a{ C labeled c%s }' % ch]
+    # modify atomtype with everything an atom type may carry
+    for at in ('C', 'C.', 'C+', 'C-', 'C:', 'O', 'aromatic C', 'aromatic C+', 'nonaromatic C.', 'ringatom C', 'allylic C',
+               'C*', '$', 'X', 'heavy atom'):
+        corpus.append('rule r{ reactant r1{ C labeled c1 } modify atomtype (c1, %s) }' % at)
+        corpus.append('rule r{ reactant r1{ C. labeled c1 H labeled h1 single bond to c1 } modify atomtype (c1, %s) '
+                      'break bond(c1,h1) increase number of radical (h1) }' % at)
     for depth in (2, 6, 14, 22, 30):
         for where in ('head', 'tail', 'alone'):
             corpus += [nested(depth, where=where), nested(depth, broken=True, where=where)]
